@@ -33,6 +33,7 @@ mod drv;
 pub mod c13;
 mod c17;
 mod c18;
+mod c19;
 
 use util::*;
 
@@ -68,6 +69,7 @@ fn main() {
         "C09" => c09::run,
         "C10" => authgen::run_c10,
         "C11" => drv::run_c11,
+        "C19" => c19::run,
         "C20" => authgen::run_c20,
         "C12" => drv::run_c12,
         "C13" => c13::run,
